@@ -88,6 +88,12 @@ CLAIMED["C15"] = dict(
   technique="symbolic execution of go/ssa with SMT (symbolic message fields), counterexamples replayed natively",
   ref="4-C15")
 
+CLAIMED["C20"] = dict(
+  text="Bounded symbolic verification (SMT over go/ssa) of the two kernels of the recorder that are within reach, stated plainly as a small part of this property: (1) diskTrack.Write's gap logic and fetch: after a forward gap exactly the missing seqnos are looked up in the publisher's cache, ascending, once each; every packet found reaches the recorder before the arriving one with EXACTLY the cached length and bytes (pion's Unmarshal executed symbolically); the caller's buffer is copied; late/duplicate packets trigger no look-up; (2) writeBuffered's timestamp handling: samples at/after the origin in mod-2^32 order (all origins, i.e. across the 32-bit wrap) are written at (ts-origin)/(rate/1000) without closing the file, in non-decreasing time; a slightly early sample is dropped.",
+  note="Bounds: all seqnos, gaps 1..4 (thorough 8), payloads 1..3 bytes; all origins, offsets < 2^30. NOT decided (the bulk of the property): frame assembly, duplicates and ordering inside jech/samplebuilder, setOrigin/setTimeOffset/adjustOrigin (rtptime uses 128-bit multiply/divide by 10^9 that no solver here decides), container well-formedness (ebml-go), flush on close, file handling. writeRTP / PopWithTimestamp / diskConn.close are models. Trusted: go/ssa, gosmt, z3/cvc5.",
+  technique="bounded symbolic execution of go/ssa with SMT (z3/cvc5) of the recovery and timestamp kernels only",
+  ref="4-C20")
+
 NOT_APPLICABLE = {
 }
 
